@@ -2,6 +2,7 @@ import Skc.Lemmas.Kernels
 import Skc.Lemmas.Pen
 import Skc.Lemmas.PeltCorollaries
 import Skc.Lemmas.Congr
+import Skc.Lemmas.Tables
 import Mathlib.Algebra.Order.BigOperators.Group.List
 
 /-! # C12 — detections respect the model's symmetries: permutation, shift, scale, reversal
@@ -144,26 +145,6 @@ theorem cbs_output_depends_on_admissible_scores {α : Type} [LT α] [DecidableLT
   runCbs_congr las las' m n hm thr ivs hivs h
 
 /-! ### composed statements: PELT on shifted data -/
-
-theorem segSum_shift (x : ℕ → ℝ) (c : ℝ) (s e : ℕ) (hse : s ≤ e) :
-    segSum (fun i => x i + c) s e = segSum x s e + ((e : ℝ) - s) * c := by
-  unfold segSum
-  rw [Finset.sum_add_distrib, Finset.sum_const, Nat.card_Ico, nsmul_eq_mul, Nat.cast_sub hse]
-
-theorem segSum_sq_shift (x : ℕ → ℝ) (c : ℝ) (s e : ℕ) (hse : s ≤ e) :
-    segSum (fun i => (x i + c) ^ 2) s e =
-      segSum (fun i => x i ^ 2) s e + 2 * c * segSum x s e + ((e : ℝ) - s) * c ^ 2 := by
-  unfold segSum
-  have : ∀ i, (x i + c) ^ 2 = x i ^ 2 + 2 * c * x i + c ^ 2 := fun i => by ring
-  simp only [this]
-  rw [Finset.sum_add_distrib, Finset.sum_add_distrib, Finset.sum_const, Nat.card_Ico, nsmul_eq_mul,
-    Nat.cast_sub hse, ← Finset.mul_sum]
-
-/-- the squared-error / Gaussian cost tables of a univariate series, from its rows -/
-noncomputable def l2Table (x : ℕ → ℝ) (s e : ℕ) : ℝ :=
-  CF.l2Optim (segSum x s e) (segSum (fun i => x i ^ 2) s e) ((e : ℝ) - s)
-noncomputable def gaussTable (x : ℕ → ℝ) (s e : ℕ) : ℝ :=
-  CF.gaussOptim (segSum x s e) (segSum (fun i => x i ^ 2) s e) ((e : ℝ) - s)
 
 /-- **C12, shift, detector level**: PELT with the squared-error cost returns the same scores and
     changepoints on `x + c` as on `x` -/
